@@ -169,7 +169,7 @@ def c01(tier, rep):
     judge_family(rep, fr)
     from . import fam_operands as fo
 
-    op = fo.operand_programs(tier) + fo.initial_programs() + fo.twin_programs()
+    op = fo.operand_programs(tier) + fo.initial_programs() + fo.twin_programs() + fo.question_mark_programs()
     fro = e2.run_family("c01operands", op, extra_header=fo.PRE)
     judge_family(rep, fro)
     rep.set("operand_corpus_programs", len(op))
@@ -195,6 +195,13 @@ def c01(tier, rep):
     frw = e2.run_family("c01wrapsteps", wp)
     judge_family(rep, frw)
     rep.set("deferred_wrapper_layout_programs", len(wp))
+    # stateful callbacks: the documented method chain hands every callback over as written, so callbacks that write to a caller local
+    # (inside and outside wrappers) leave the local exactly as the method chain does (shared with C02 / C19)
+    from . import fam_costs, fam_names
+
+    sp2 = [p for p in fam_costs.borrow_programs() if "shared-local" in p.id or "wrapper-closure" in p.id or "closure-mut-borrow" in p.id]
+    frs2 = e2.run_family("c01shared", sp2, extra_header=fam_names.NEST_HEADER + fam_costs.RC_PRE)
+    judge_family(rep, frs2)
     rep.set("states", len(stats["kinds"]))
     rep.set("transitions", len(stats["rows"]))
     rep.set("operator_pairs", len(stats["pairs"]))
@@ -392,8 +399,18 @@ def judge_classes(rep, fr, want):
                     {"program": p.id, "dsl": p.meta["dsl"], "reference": p.meta["ref"], "rustc": rendered})
     for p, mm, n in fr.mismatches:
         if mm.get("class") != want:
-            other += 1
-            continue
+            # a mismatch whose VALUE differs is the sibling property's — unless (trace property) the macro also evaluated something
+            # the reference did not evaluate at all on this row (an event site occurring more often than in the reference): that is
+            # "something of a later step ran", whatever the value
+            extra = False
+            if want == "trace":
+                from collections import Counter
+                site = lambda e: e.split(":")[0]
+                rc, mc = Counter(site(e) for e in mm["ref"].get("trace", [])), Counter(site(e) for e in mm["mac"].get("trace", []))
+                extra = any(mc[k] > rc.get(k, 0) for k in mc)
+            if not extra:
+                other += 1
+                continue
         rep.violate(
             "%s | row %s" % (p.meta["dsl"], mm["row"]),
             "%s on fault row %s: reference %s / macro %s" % (p.meta["dsl"], mm["row"], json.dumps(mm["ref"])[:300], json.dumps(mm["mac"])[:300]),
